@@ -33,7 +33,7 @@ func evalC05(cs *c05Case) (vs []*Violation, ok bool) {
 	buf := append([]byte(strings.Repeat("#", cs.Offs)), cs.Msg...)
 	add := func(rule, class, detail string) {
 		c := mkCase("C05", "ParseSIPMsg", &Cfg{Flags: uint(cs.Flags), Offs: cs.Offs, HdrCap: cs.HdrCap, ValCap: cs.ValCap}, []byte(cs.Msg), nil)
-		c.Extra = map[string]any{"case": cs}
+		c.Extra = map[string]any{"case": *cs} // a copy: callers re-use their case variables
 		vs = append(vs, &Violation{Property: "C05", Site: "ParseSIPMsg", Rule: rule, Class: class, Detail: detail, Case: c})
 	}
 	defer recoverTo3(add)
